@@ -73,6 +73,7 @@ func runC19(cfg Config) {
 	}
 	one := func(cmd string, b []byte, impl func(string) string, tag string, measure bool) string {
 		line := cmd + " bytes=" + hx(b)
+		markCase(line)
 		var got string
 		var malloc int
 		var used uint64
